@@ -26,8 +26,12 @@ Closing(st) == st \notin {200, 404, 501}
 Fate(r, v) == {[status |-> st, second |-> IF Closing(st) THEN 0 ELSE 200] : st \in Status(r, v)}
 \* response helpers a handler may call, and hostile argument classes
 Helpers == {"set", "append", "vary", "location", "redirect", "cookievalue", "cookiepath", "cookiedomain", "links", "typecharset",
-            "attachment", "download", "jsonp", "format", "flash", "sendstring"}
-ArgClasses == {"plain", "cr", "lf", "crlf", "crlfcrlf", "nul", "long", "utf8crlf"}
+            "attachment", "download", "jsonp", "format", "flash", "sendstring",
+            "flashlevel",     \* flash messages with levels 10, 13, 127: a level is one byte of the cookie
+            "flashinput"}     \* Redirect().WithInput(): the text is what the CLIENT sent (query), not what the handler chose
+\* "len13" .. "len2570": harmless text whose LENGTH written big-endian contains the bytes 0x0D / 0x0A (13, 266 = 0x010A,
+\* 269 = 0x010D, 2570 = 0x0A0A): a length-prefixed encoding inside a header value must not put them on the wire
+ArgClasses == {"plain", "cr", "lf", "crlf", "crlfcrlf", "nul", "long", "utf8crlf", "len13", "len266", "len269", "len2570"}
 \* application variants: default context, custom context (NewCtxFunc), Immutable, a custom RequestMethods list, UnescapePath
 CtxKinds == {"default", "custom", "immutable", "methods", "unescape"}
 
